@@ -433,6 +433,7 @@ def sim_pass(res, name, module, consts, invariants, outdir, tier, num, depth, st
     r = run_tlc_export(name + "_sim", module, cfg, sdir, tier, asan_stride=asan_stride, tlc_workers=4,
                        simulate="num=%d" % num, depth=depth, max_scripts=40000 if tier == "quick" else 2000000)
     r["module"] = module
+    res.setdefault("simulation_wall_s", round(r["wall_tlc"], 1))
     return merge_results(res, r)
 
 
@@ -447,8 +448,10 @@ def fam_stop(tier, outdir):
     cfg = os.path.join(outdir, "MC_Stop.cfg")
     write_cfg(cfg, "Spec", consts, ["TypeOK", "LifeChild", "WaitTruthful", "NoSignalAfterReap"], export_stride=1)
     res = run_tlc_export("stop", "MC_Stop", cfg, outdir, tier, asan_stride=16 if tier == "quick" else 4)
-    sc = dict(consts); sc.update({"MaxTime": 8, "MaxCalls": 8, "MaxStops": 5, "ThirdActs": '"All"', "Timeouts": "{0, 1, 3}"})
-    return sim_pass(res, "stop", "MC_Stop", sc, ["TypeOK", "LifeChild"], outdir, tier, 400 if tier == "quick" else 20000, 60, stride=400)
+    sc = dict(consts); sc.update({"MaxTime": 8, "MaxCalls": 8, "MaxStops": 5, "Timeouts": "{0, 1, 3}"})
+    if tier != "quick":
+        sc["ThirdActs"] = '"All"'
+    return sim_pass(res, "stop", "MC_Stop", sc, ["TypeOK", "LifeChild"], outdir, tier, 60 if tier == "quick" else 5000, 50, stride=100)
 
 
 def fam_life(tier, outdir):
